@@ -430,7 +430,7 @@ def write_generic(repo, outfile, write_ref, units_fn, header, end, ref_path, ref
 
 def write(repo=None, outfile=None, write_ref=False):
     repo = repo or os.environ.get("VERIF_REPO", "/repo")
-    outfile = outfile or os.path.join(VERIF, "coq", "gen", "LbfgsGen.v")
+    outfile = outfile or os.path.join(os.environ.get("VERIF_GEN_OUT") or os.path.join(VERIF, "coq", "gen"), "LbfgsGen.v")
     return write_generic(repo, outfile, write_ref, units, HEADER, END, REF, "LbfgsGen.ref.v",
                          "LbfgsGen.v — by translate/gen_lbfgs.py", os.path.join(repo, TPP) + " , " + os.path.join(repo, HPP), BINDERS, CTX_ARGS)
 
